@@ -344,7 +344,8 @@ def headers_and_tables(ctx, ld):
     # the names the renamer gives out are unique: every name built with the de-duplication format is tried against the names in use
     # (all incoming headers and every name given out so far) and numbered on until it is free - 'a, a, a (1)' must not become
     # 'a (1), a (2), a (1)'
-    rn = ctx.N(ld.methods['rename_duplicate_headers'])
+    from sa.normalize import renest_helpers as _rh13
+    rn = _rh13(ctx, ctx.N(ld.methods['rename_duplicate_headers']))       # (with the module-level helpers it calls read as nested ones)
     hp, fmtp = rn.params[0], (rn.params[2] if len(rn.params) > 2 else None)
     built = [n for n in ast.walk(rn.node) if isinstance(n, ast.BinOp) and isinstance(n.op, ast.Mod) and fmtp in names_in(n.left)] + \
         [n for n in ast.walk(rn.node) if isinstance(n, ast.Call) and isinstance(n.func, ast.Attribute) and n.func.attr == 'format'
